@@ -448,7 +448,25 @@ func (w *kworld) signCase(impl gmsl.IRoomVersion, c *evCase) {
 	plan := func(sv *world.Server) sigPlan {
 		k := sv.Current()
 		pl := sigPlan{server: sv, keyID: k.ID, priv: k.Priv, signer: k, kind: "current"}
-		switch t.Weighted([]int{8, 3, 2, 2, 2, 1, 1}) {
+		switch t.Weighted([]int{8, 3, 2, 2, 2, 1, 1, 1}) {
+		case 7:
+			// made with a key of somebody's making, under this server's name
+			// and a key id it never published (or its current one) - and some
+			// other server, asked for its own keys, will vouch for exactly
+			// that key in this server's name. Nobody but a server itself (or a
+			// notary the client trusts) can say what its keys are.
+			rk := w.rogue.Current()
+			pl.keyID = sim.Pick(t, []gmsl.KeyID{"ed25519:invented", "ed25519:invented", k.ID})
+			pl.priv, pl.signer, pl.kind = rk.Priv, rk, "forged_key"
+			if w.client != nil && w.client.forgeVictim == nil {
+				w.client.forgeVictim, w.client.forgeKeyID = sv, pl.keyID
+				w.client.directDown = map[spec.ServerName]bool{}
+				for _, o := range w.origins {
+					if o != sv && t.Chance(700) {
+						w.client.directDown[o.Name] = true
+					}
+				}
+			}
 		case 1:
 			k = sim.Pick(t, sv.Keys)
 			pl = sigPlan{server: sv, keyID: k.ID, priv: k.Priv, signer: k, kind: "generation:" + string(k.ID)}
